@@ -201,6 +201,93 @@ theorem setdim_validity_partial (c : Cls) (d0 d1 : Nat) (p : Params K) (hle : d1
       cases c <;> simp_all [checkDim, allBounds, optBounds]
     exact validity_table c d1 p hbase
 
+/-! ### in-place histories (evaluate, change through the setters, evaluate, …) -/
+
+omit [IsStrictOrderedRing K] in
+/-- no operation touches the class, the stored bounds or the lat-lon forcing -/
+theorem hStep_invariants (s : HState K) (o : HOp K) :
+    (hStep s o).1.cls = s.cls ∧ (hStep s o).1.boundsDim = s.boundsDim ∧ (hStep s o).1.forced = s.forced := by
+  cases o <;> simp only [hStep] <;> (try split_ifs) <;> simp
+
+omit [IsStrictOrderedRing K] in
+theorem hRun_invariants (s : HState K) (ops : List (HOp K)) :
+    (hRun s ops).cls = s.cls ∧ (hRun s ops).boundsDim = s.boundsDim ∧ (hRun s ops).forced = s.forced := by
+  induction ops generalizing s with
+  | nil => simp [hRun]
+  | cons o os ih =>
+    have h1 := hStep_invariants s o
+    have h2 := ih (hStep s o).1
+    simp only [hRun, List.foldl_cons] at h2 ⊢
+    exact ⟨h2.1.trans h1.1, h2.2.1.trans h1.2.1, h2.2.2.trans h1.2.2⟩
+
+omit [IsStrictOrderedRing K] in
+/-- **Evaluations leave no trace**: the state reached by a history is the state reached by the same history with every
+    read access removed — the model of "the code keeps no cache"; the correspondence compares the real object after the
+    history with a freshly constructed one of the predicted (dimension, values). -/
+theorem history_eval_irrelevant (s : HState K) (ops : List (HOp K)) :
+    hRun s ops = hRun s (ops.filter fun o => !o.isEval) := by
+  induction ops generalizing s with
+  | nil => rfl
+  | cons o os ih =>
+    cases o with
+    | eval => simpa [hRun, hStep, HOp.isEval] using ih s
+    | setDim d => simpa [hRun, HOp.isEval] using ih (hStep s (.setDim d)).1
+    | setArg a v => simpa [hRun, HOp.isEval] using ih (hStep s (.setArg a v)).1
+
+/-- whatever the history: a state that a FRESH constructor accepts is valid in the current dimension (this is the
+    classification the search applies after every history). -/
+theorem history_validity_of_fresh (s0 : HState K) (ops : List (HOp K))
+    (h : hFreshAccepted (hRun s0 ops) = true) :
+    litValid (hRun s0 ops).cls (hRun s0 ops).dim (hRun s0 ops).p :=
+  validity_table _ _ _ h
+
+/-- **After any history** of evaluations, dimension changes and parameter changes on a model constructed in dimension
+    `d0`: if the object accepts its current state (stored bounds + `check_dim` of the current dimension) and the current
+    dimension does not exceed `d0`, the state is valid in the current dimension. -/
+theorem history_validity_partial (c : Cls) (d0 : Nat) (forced : Option Nat) (p0 : Params K) (ops : List (HOp K))
+    (hacc : hAccepted (hRun (hInit c d0 forced p0) ops) = true)
+    (hle : (hRun (hInit c d0 forced p0) ops).dim ≤ d0) :
+    litValid c (hRun (hInit c d0 forced p0) ops).dim (hRun (hInit c d0 forced p0) ops).p := by
+  obtain ⟨hc, hb, _⟩ := hRun_invariants (hInit c d0 forced p0) ops
+  have hc : (hRun (hInit c d0 forced p0) ops).cls = c := hc
+  have hb : (hRun (hInit c d0 forced p0) ops).boundsDim = d0 := hb
+  unfold hAccepted at hacc
+  rw [hc, hb] at hacc
+  exact setdim_validity_partial c d0 _ _ hle hacc
+
+omit [IsStrictOrderedRing K] in
+/-- for the 14 classes whose bounds do not depend on the dimension the stored bounds are the bounds of every dimension -/
+theorem acceptsAfterSetDim_eq_accepts (c : Cls) (hc : dimIndepBounds c = true) (d0 d1 : Nat) (p : Params K) :
+    acceptsAfterSetDim c d0 d1 p = accepts c d1 p := by
+  cases c <;> simp_all [dimIndepBounds, acceptsAfterSetDim, accepts, allBounds, optBounds]
+
+/-- **After any history, every dimension** (up or down): for the 14 classes without dimension-dependent bounds
+    (HyperSpherical, Gaussian, …, the TPL classes except TPLSimple) a state the object accepts is valid in the current
+    dimension.  The remaining three are finding D8 (`setdim_validity_full_false`). -/
+theorem history_validity_dim_indep (c : Cls) (hc : dimIndepBounds c = true) (d0 : Nat) (forced : Option Nat)
+    (p0 : Params K) (ops : List (HOp K)) (hacc : hAccepted (hRun (hInit c d0 forced p0) ops) = true) :
+    litValid c (hRun (hInit c d0 forced p0) ops).dim (hRun (hInit c d0 forced p0) ops).p := by
+  obtain ⟨hcl, hb, _⟩ := hRun_invariants (hInit c d0 forced p0) ops
+  have hcl : (hRun (hInit c d0 forced p0) ops).cls = c := hcl
+  have hb : (hRun (hInit c d0 forced p0) ops).boundsDim = d0 := hb
+  unfold hAccepted at hacc
+  rw [hcl, hb, acceptsAfterSetDim_eq_accepts c hc] at hacc
+  exact validity_table c _ _ hacc
+
+/-- non-trivial instance: a HyperSpherical model built in 1-D, evaluated, raised to 3-D, its variance changed, evaluated
+    again — accepted, in dimension 3 -/
+example : let s := hRun (hInit (α := ℚ) .HyperSpherical 1 none ⟨1, 1, 0, 0, 0, 0, 0⟩) [.eval, .setDim 3, .setArg .var 2, .eval]
+    hAccepted s = true ∧ s.dim = 3 ∧ s.p.var = 2 := by
+  simp [hRun, hStep, hInit, hAccepted, acceptsAfterSetDim, checkDim, firstError, allBounds, baseBounds, optBounds,
+    errCase, Iv.lowerClosed, Iv.upperClosed, Params.get, Params.set]
+
+/-- and of the partial statement: SuperSpherical built in 3-D (ν = 1), lowered to 2-D after an evaluation -/
+example : let s := hRun (hInit (α := ℚ) .SuperSpherical 3 none ⟨1, 1, 0, 1, 0, 0, 0⟩) [.eval, .setDim 2, .eval]
+    hAccepted s = true ∧ s.dim ≤ 3 := by
+  simp [hRun, hStep, hInit, hAccepted, acceptsAfterSetDim, checkDim, firstError, allBounds, baseBounds, optBounds,
+    errCase, Iv.lowerClosed, Iv.upperClosed, Params.get]
+  norm_num
+
 end table
 
 /-! ## (2) closure: from a valid isotropic correlation to every covariance matrix GSTools builds -/
